@@ -158,23 +158,33 @@ inductive DRes where
 def kName : Bytes := [0x6b]
 def vName : Bytes := [0x76]
 
+/-- does the (possibly cut) input start with a head of the raw family / a map16-map32 head?  A cut value of another
+    type is refused by the real decoder for its type before its payload is read: `outside`, not a cut. -/
+def rawHead : Bytes → Bool
+  | [] => true
+  | b :: _ => (160 ≤ b.toNat && b.toNat < 192) || (196 ≤ b.toNat && b.toNat ≤ 198) || (217 ≤ b.toNat && b.toNat ≤ 219)
+
+def mapHead : Bytes → Bool
+  | [] => true
+  | b :: _ => b.toNat == 222 || b.toNat == 223
+
 /-- the `n` key/value pairs of one map: `k` and `v` assign (a later one overrides), other names are skipped -/
 def fields : Nat → Nat → Entry → Bytes → DRes
   | _, 0, e, bs => .ok e bs
   | 0, _, _, _ => .err
   | f + 1, n + 1, e, bs =>
     match readTok bs with
-    | none => .err
+    | none => if rawHead bs then .err else .outside
     | some (.raw name, r) =>
       if name == kName then
         (match readTok r with
-         | none => .err
+         | none => if rawHead r then .err else .outside
          | some (.raw k, r') => fields f n { e with key := k } r'
          | some (.nil, r') => fields f n { e with key := [] } r'
          | some _ => .outside)
       else if name == vName then
         (match readTok r with
-         | none => .err
+         | none => if rawHead r then .err else .outside
          | some (.raw v, r') => fields f n { e with value := some v } r'
          | some (.nil, r') => fields f n { e with value := none } r'
          | some _ => .outside)
@@ -192,7 +202,7 @@ def decodeEntry (bs : Bytes) : DRes :=
   | [] => .eof
   | _ =>
     match readTok bs with
-    | none => .err
+    | none => if mapHead bs then .err else .outside
     | some (.nil, r) => .ok zeroEntry r
     | some (.map n, r) => fields (r.length + 1) n zeroEntry r
     | some _ => .outside
